@@ -127,7 +127,43 @@ def _impl(case):
 CTL = C.Kind("control_breeze_device", impl=_impl, model=_model, judge=_judge, compare=H.same("class"),
              classify=lambda c, o: f"upd{c['req']['upd']}:fault{c.get('_fault')}:{H.outcome_of(o).split()[0] if not H.outcome_of(o).startswith('raise') else H.outcome_of(o)}:{len(H.frames_of(o))}f",
              nontrivial=_nt)
-KINDS = {"control_breeze_device": CTL}
+import histharness as HH  # noqa: E402
+
+
+def _judge_hist(hist, out):
+    lines = []
+    for inst, outs in zip(hist["instances"], HH.split_history_output(hist, out)):
+        for op, o in zip(inst["ops"], outs):
+            lines += _judge(dict(op["_case"], did=inst["did"], key=inst["key"]), o)
+    return lines
+
+
+def gen_history(rng):
+    """several control requests through ONE api object on one connection (actionable ones, ones that ask for nothing, update-only
+    ones, ones whose replies are missing), each with the device in another state: every one is judged on its own"""
+    ir = gen_ir(rng)
+    did, key = G.gen_ids(rng)
+    ops, now = [], float(rng.randrange(1_600_000_000, 1_900_000_000))
+    for _ in range(rng.randrange(2, 7)):
+        c = gen_case(rng, fault=rng.choice([None, None, None, 1, 2, 3]), ir=ir if rng.random() < 0.8 else None)
+        if rng.random() < 0.3:          # a request that asks for nothing (or for the swing only, with update_state)
+            c["req"].update(state=None, mode=None, temp=0, fan=None, swing=rng.choice([None, "ON", "OFF"]), upd=rng.randrange(2))
+        now += rng.choice([1, 5, 60])
+        c["now"] = now
+        ops.append({"now": now, "req": c["req"], "replies": c["replies"], "_case": c})
+    return {"tz": "UTC", "instances": [{"did": did, "key": key, "api": "type2", "ops": ops}], "schedule": []}
+
+
+def _strip_hist(h):
+    return dict(h, instances=[dict(i, ops=[{k: v for k, v in op.items() if k != "_case"} for op in i["ops"]]) for i in h["instances"]])
+
+
+SERIES = C.Kind("requests-through-one-api-object", impl=lambda h: HH.run_history(_strip_hist(h)), model=lambda h: HH.model_lines(_strip_hist(h)),
+                assemble=HH.assemble, judge=_judge_hist, compare=H.same("class"),
+                classify=lambda h, o: f"{len(h['instances'][0]['ops'])}ops", nontrivial=lambda h, o: o[:200],
+                shrink=lambda h: [dict(h, instances=[dict(h["instances"][0], ops=h["instances"][0]["ops"][:j] + h["instances"][0]["ops"][j + 1:])])
+                                  for j in range(len(h["instances"][0]["ops"])) if len(h["instances"][0]["ops"]) > 1])
+KINDS = {"control_breeze_device": CTL, "requests-through-one-api-object": SERIES}
 
 
 def streams(ctx):
@@ -147,6 +183,8 @@ def streams(ctx):
             if rng.random() < 0.6:      # the same request again, the device in another state
                 c["req"] = dict(base["req"])
             series.append(c)
+    ctx.run_cases(SERIES, "several-requests-through-one-api-object-on-one-connection", [gen_history(rng) for _ in range(ctx.n(150, 3000))], exhaustive=False,
+                  sample_every=70)
     ctx.run_cases(CTL, "series-of-requests-through-one-remote-object", series, exhaustive=False, sample_every=len(series) // 3)
 
 
